@@ -71,8 +71,14 @@ def touched_crates(patch):
 
 
 def run(pid, res):
+    """Replays the seeded changes that concern `pid` on scratch copies of the tree under check. Bounded by a time budget
+    (VERIF_SELFVAL_BUDGET seconds, default 2400; extraction of a patched tree costs ~40 s when it is not cached): breaking
+    changes first, then reverted fixes, then the behaviour-preserving variants; what was not reached is said in the evidence."""
+    import time as _time
     root = os.path.join(X.VERIF, "seeded")
-    n = 0
+    budget = float(os.environ.get("VERIF_SELFVAL_BUDGET", "2400"))
+    t0 = _time.time()
+    todo = []
     for meta_p in sorted(glob.glob(os.path.join(root, "*", "meta.json"))):
         with open(meta_p) as fh:
             meta = json.load(fh)
@@ -84,6 +90,15 @@ def run(pid, res):
             continue
         if benign and pid in CRATES and not (touched_crates(patch) & CRATES[pid]):
             continue
+        rank = 2 if benign else (1 if name.startswith("regress-") else 0)
+        todo.append((rank, name, meta, patch, expect, benign))
+    todo.sort(key=lambda x: (x[0], x[1]))
+    n = 0
+    for rank, name, meta, patch, expect, benign in todo:
+        if _time.time() - t0 > budget:
+            res.note("self-validation stopped after %d of %d seeded changes (time budget %ds; set VERIF_SELFVAL_BUDGET to go on)"
+                     % (n, len(todo), int(budget)))
+            break
         n += 1
         applied, failed, total = evaluate(pid, patch)
         if applied is False:
